@@ -58,6 +58,35 @@ def check(an, rep, tier):
                 'idx[d+1], idx_many[d]) at d=%d' % r.d,
                 'ok' if ok else 'violation',
                 '' if ok else 'returned %r' % (v,))
+    import ast as _ast
+    from .. import paths as _paths
+    fsv = an.prog.func('svd.svd_incomplete')
+    steps, widths = [], []
+    for node in _ast.walk(fsv.node):
+        if isinstance(node, _ast.Subscript) and \
+                isinstance(node.value, _ast.Name) and \
+                node.value.id == 'I_curr' and \
+                isinstance(node.slice, _ast.Tuple) and \
+                isinstance(node.slice.elts[0], _ast.Slice) and \
+                node.slice.elts[0].step is not None:
+            steps.append(_paths.src(fsv.module, node.slice.elts[0].step
+                                    ).replace(' ', ''))
+        if isinstance(node, _ast.Call) and \
+                isinstance(node.func, _ast.Attribute) and \
+                node.func.attr == 'reshape' and len(node.args) == 2 and \
+                isinstance(node.args[0], _ast.UnaryOp):
+            base = _paths.src(fsv.module, node.func.value).replace(' ', '')
+            if base.startswith('Y[idx[mode]'):
+                widths.append(_paths.src(fsv.module, node.args[1]
+                                         ).replace(' ', ''))
+    okc = steps == ['idx_many[mode]'] and widths == ['idx_many[mode]']
+    rep.add('S-consumer', 'svd.svd_incomplete', 'row stride %s / block width '
+            '%s' % (steps, widths), 'ok' if okc else 'violation',
+            '' if okc else 'the producer lays the samples of one mode out as '
+            'prefixes x (mode index) x idx_many[mode] suffixes: the interface '
+            'rows must be taken with stride idx_many[mode] and the values '
+            'folded with width idx_many[mode]', line=fsv.node.lineno,
+            file=fsv.module.path)
     rep.floor('S-ndim', 1, 'lstsq operand')
     rep.floor('S-ret', 2, 'svd_incomplete results')
     rep.floor('S-producer', 2, 'sample_tt layouts')
